@@ -55,7 +55,7 @@ def _make_sim(kind, prng, clifford=False):
 @st.composite
 def _case(draw, sims=SIMS, **kw):
     r = draw(MC.meas_circuit_recipes(**kw))
-    if not any(o["k"] == "m" for o in r["ops"]):
+    if not any(o["k"] in ("m", "pm") for o in r["ops"]):
         n0 = len(r["dims"])
         w = list(draw(st.permutations(list(range(n0)))))[: draw(st.integers(1, min(3, n0)))]
         r["ops"].append({"k": "m", "key": "a", "w": w, "inv": [], "conf": None})
@@ -68,6 +68,8 @@ def _case(draw, sims=SIMS, **kw):
                 touched = [w for w in touched if w not in o["w"]] + list(o["w"])
             elif o["k"] == "m":
                 touched = [w for w in touched if w not in o["w"]]
+            elif o["k"] == "pm":  # the post-measurement state of an observable measurement is worth observing too
+                touched = [w for w in touched if w not in o["w"]] + list(o["w"])
         fin = touched[-3:]
         size = 1
         for w in fin:
@@ -103,7 +105,7 @@ def _compare_tables(what, got, want, tol=1e-6):
 
 def _labels(r, ref_branches, want):
     mid = sum(1 for p in want.values() if 0.01 < p < 0.99)
-    keys = [o["key"] for o in r["ops"] if o["k"] == "m"]
+    keys = [o["key"] for o in r["ops"] if o["k"] in ("m", "pm")]
     feats = {
         "cond": any(o["k"] == "cg" for o in r["ops"]),
         "mask_or_conf": any(o["k"] == "m" and len(o["w"]) > 1 and (any(o.get("inv") or []) or o.get("conf")) for o in r["ops"]),
@@ -111,15 +113,16 @@ def _labels(r, ref_branches, want):
         "qudit": any(d != 2 for d in r["dims"]),
         "terminal_only": MC.is_terminal_only(r),
         "reset": any(o["k"] == "r" for o in r["ops"]),
+        "pauli_measure": any(o["k"] == "pm" for o in r["ops"]),
     }
-    feats["nontrivial"] = mid >= 2 and (feats["cond"] or feats["mask_or_conf"] or feats["repeated_key"] or feats["qudit"])
+    feats["nontrivial"] = mid >= 2 and (feats["cond"] or feats["mask_or_conf"] or feats["repeated_key"] or feats["qudit"] or feats["pauli_measure"])
     feats["sim"] = r["sim"]
     feats["entry"] = r["entry"]
     return feats
 
 
 def oracle_distribution(r):
-    if not any(o["k"] == "m" for o in r["ops"]):
+    if not any(o["k"] in ("m", "pm") for o in r["ops"]):
         raise Reject("no measurement")
     circuit, qs, ir, key_dims = MC.build(r, r["order"])
     order = [qs[i] for i in r["order"]]
@@ -134,7 +137,7 @@ def oracle_distribution(r):
         entry = "run"
     n_inst = {}
     for o in r["ops"]:
-        if o["k"] == "m":
+        if o["k"] in ("m", "pm"):
             n_inst[o["key"]] = n_inst.get(o["key"], 0) + 1
 
     if entry == "sample" and (any(v > 1 for v in n_inst.values()) or any(d != 2 for dd in key_dims.values() for d in dd)):
@@ -332,6 +335,8 @@ SUBCHECKS = [
              essential={"cond": 0.15, "repeated_key": 0.05}),
     SubCheck("distribution_qudit", _case(max_w=3, max_ops=8, qudits=True), oracle_distribution, quick=400, thorough=20000, shards_quick=2),
     SubCheck("distribution_clifford", _case(sims=["clifford", "clifford_nosplit", "stab_sampler"], max_w=4, max_ops=9, clifford=True),
-             oracle_distribution, quick=1000, thorough=20000, shards_quick=3),
+             oracle_distribution, quick=600, thorough=20000, shards_quick=4),
+    SubCheck("distribution_tableau", _case(sims=["stab_sampler"], max_w=4, max_ops=12, clifford=True, confusion=False, max_branches=16),
+             oracle_distribution, quick=500, thorough=20000, shards_quick=4),
     SubCheck("sampling_is_pure", _sample_case(), oracle_sample_pure, quick=600, thorough=20000, shards_quick=2),
 ]
